@@ -100,6 +100,14 @@ def threshold_key(eps, metric):
     return e * e if metric == "euclidean" else e
 
 
+def boundary_key(eps, metric):
+    """Key of the distance that equals eps exactly (None for eps < 0)."""
+    e = Fraction(float(eps))
+    if e < 0:
+        return None
+    return e * e if metric == "euclidean" else e
+
+
 def below(k, tk):
     return k is not None and tk is not None and k < tk
 
